@@ -220,6 +220,12 @@ pub fn c08_sweep(tier: Tier) -> (Acc, Value) {
             c08_name_case(ty, &alone, acc);
             c08_name_case(ty, &mid, acc);
         }
+        // word-final and after-upper-case positions, with and without a separator in the name
+        // (context-sensitive case mappings such as the final sigma; ASCII fast paths)
+        for name in [format!("a{c}"), format!("A{c}"), format!("_a{c}"), format!("B.a{c}-")] {
+            c08_name_case("pypi", &name, acc);
+            c08_name_case("nuget", &name, acc);
+        }
         if c == 'ǅ' || c == 'É' {
             acc.sample(|| json!({"type": "nuget", "name": alone}));
         }
